@@ -21,6 +21,15 @@ CHECKS = {
    technique="stateless schedule exploration (preemption- and early-timer-bounded DFS over all interleavings) of the real queue + roll-over goroutine under a controlled scheduler, invariant oracle at every quiescent point",
    text="All interleavings (<=2 preemptions, <=1 early time step; 3/2 thorough) of 2-3 enqueuing goroutines, the queue's real window roll-over goroutine and TTL timers, on 5 queue-level and 2 plugin-level scenarios, in virtual time. At every quiescent point of every schedule: a live waiter is in the heap or granted (never stranded), a roll-over pass never ends with free quota and a live waiter, releases respect (priority, arrival), waiters <= queue size; at the end grants per aligned window <= quota and rejections only for queue-full or elapsed TTL.",
    note="scheduling granularity = sync operations (native channel ops are not split); scenarios listed in the harness; virtual time via testing/synctest; sync shim fidelity"),
+
+ "C03": dict(level="exploration", engine="seqx-product", design="§3 C03",
+   technique="bounded-exhaustive enumeration of flow sets x insertion orders x transactions through the real FilterTree/urltree against an independent pattern+constraint matcher",
+   text="All flow sets of size <=2 over 17 URL patterns x 6 constraint kinds x {user, system} flows, in every insertion order, are loaded into the real streamfilter.FilterTree and queried with 960 transactions (URL shapes with extra/missing segments, methods, header, query, request/response status). Only-if: every selected flow's own filter accepts; if: every accepting flow is selected unless a more specific literal pattern is configured; order: selection identical for all load orders.",
+   note="patterns/transactions outside the alphabet; header/query constraints asserted on the request side only; zero-tail wildcard match left open; reference matcher in harness/refurl"),
+ "C13": dict(level="exploration", engine="seqx-product", design="§3 C13",
+   technique="bounded-exhaustive enumeration of endpoint declaration sets x declaration orders x requests through BuildEndpointPolicyTree and the dispatcher against an independent matcher",
+   text="All endpoint declaration sets of size <=3 over 42 (method, pattern) pairs in every declaration order are built with the real BuildEndpointPolicyTree; 80 requests are resolved through the dispatcher's getRemedies/getDiagnoses. Every applied remedy/diagnosis must come from a declaration with the request's method whose pattern matches, from the most specific reachable one; the normalised URL must be a declared matching pattern; path parameters must be the request's parts; the outcome must not depend on declaration order.",
+   note="each endpoint carries a distinct remedy type; only-if reading; non-backtracking trie accepted (shadowed more-specific patterns are excused); patterns outside the alphabet not covered"),
 }
 NA_REASON = "check not built yet in this round (work in progress; planned per DESIGN.md §3)"
 def main():
